@@ -188,7 +188,7 @@ func (w *worker) run(name string) (res *HarnessResult) {
 		constStrs: map[string]int{}, globalObjs: map[int]*Obj{}, seenViol: map[string]bool{}, Reached: map[string]int{},
 		MaxUnwind: spec.Unwind, errType: errNamed, Trace: spec.Trace, cores: map[int][][]int{}, mergeFns: map[string]bool{},
 		funcs: res.Funcs, Tier: spec.Tier, wantWitnesses: spec.Witnesses, harnessName: name,
-		stubsUsed: map[string]bool{}, assumeTexts: map[string]bool{}}
+		stubsUsed: map[string]bool{}, assumeTexts: map[string]bool{}, overlay: spec.Overlay}
 	if e.MaxUnwind == 0 {
 		e.MaxUnwind = 64
 	}
